@@ -503,12 +503,17 @@ where
                 RxcWindowResponse::Rx(sz, q, timeout_fut) => {
                     debug!("RXC window received {} bytes.", sz);
                     self.radio_buffer.set_pos(sz);
-                    let mac_response = self.mac.handle_rxc::<N, D>(
+                    let mac_response = match self.mac.handle_rxc::<N, D>(
                         &mut self.radio_buffer,
                         &mut self.downlink,
                         q.snr(),
                         &rx_config.rf,
-                    )?;
+                    ) {
+                        // While joining there is no session a Class C frame could belong to:
+                        // the frame is not accepted and must change nothing.
+                        Err(mac::Error::NotJoined) => mac::Response::NoUpdate,
+                        r => r?,
+                    };
                     match Self::handle_mac_response(
                         &mut self.radio_buffer,
                         &mut self.mac,
